@@ -2,6 +2,9 @@ package main
 
 import (
 	"bytes"
+	"encoding/hex"
+	"math"
+	"unicode/utf8"
 	"fmt"
 	"os/exec"
 	"reflect"
@@ -12,6 +15,7 @@ import (
 	"github.com/polydawn/refmt/cbor"
 	"github.com/polydawn/refmt/json"
 	"github.com/polydawn/refmt/shared"
+	"github.com/polydawn/refmt/tok"
 )
 
 func fmtOpts(f, line, indent string) (refmt.EncodeOptions, refmt.DecodeOptions) {
@@ -240,35 +244,153 @@ func opPump(p []string) string {
 	if class == "panic" {
 		oracle = "viol:panic"
 	}
-	// the slow route: Unmarshal into an untyped variable, then Marshal
+	// the slow route: Unmarshal into an untyped variable, then Marshal; compare VALUES (spelling and key order may differ)
 	slow := "-"
+	inModel := false
 	if class == "ok" {
+		// is the input inside the data model common to both formats?
+		var chk stepper
+		if p[0] == "cbor" {
+			chk = cbor.NewDecoder(cbor.DecodeOptions{}, bytes.NewBuffer(data))
+		} else {
+			chk = json.NewDecoder(bytes.NewBuffer(data))
+		}
+		its, cls, _ := runDecoder(chk, 2*len(data)+8)
+		inModel = cls == "ok" && tokensInCommonModel(its)
+	}
+	if class == "ok" && inModel {
 		var u interface{}
 		_, do := fmtOpts(p[0], "nil", "-")
-		eo, _ := fmtOpts(p[1], p[2], p[3])
+		eo, sinkDo := fmtOpts(p[1], p[2], p[3])
+		var slowBytes []byte
 		e, pn := safely(func() error {
-			if e := refmt.Unmarshal(do, data, &u); e != nil {
+			if e := refmt.Unmarshal(do, data[:len(data)-in.Len()], &u); e != nil {
 				return e
 			}
 			b, e := refmt.Marshal(eo, &u)
+			slowBytes = b
 			slow = hexOrDash(b)
 			return e
 		})
 		if pn || e != nil {
 			slow = "fail"
+			oracle = "viol:slow-route-fails-where-the-pump-succeeds"
+		} else {
+			var vOut, vSlow interface{}
+			e1 := refmt.Unmarshal(sinkDo, out.Bytes(), &vOut)
+			e2 := refmt.Unmarshal(sinkDo, slowBytes, &vSlow)
+			switch {
+			case e1 != nil:
+				oracle = "viol:pump-output-does-not-decode"
+			case e2 != nil:
+				oracle = "viol:slow-output-does-not-decode"
+			case !sameValue(vOut, vSlow):
+				oracle = "viol:pump-and-slow-route-denote-different-values"
+			case !sameValue(u, vOut):
+				oracle = "viol:output-denotes-a-different-value-than-the-input"
+			}
 		}
 	}
 	res := fmt.Sprintf("I=%s/%d/%s W=%s O=%s", hexOrDash(out.Bytes()), in.Len(), class, slow, oracle)
 	if len(p) > 5 && p[5] == "cli" && cliPath != "" {
-		res += " C=" + runCLI(p[0], p[1], data)
+		c := runCLI(p[0]+"="+p[1], data)
+		res += " C=" + c
+		// the hex flavours
+		if p[0] == "json" && p[1] == "cbor" {
+			if h := runCLI("json=cbor.hex", data); h != "err" && c != "err" {
+				raw, _ := hex.DecodeString(h)
+				if hexOrDash([]byte(strings.TrimSpace(string(raw)))) != hexOrDash([]byte(c)) && strings.TrimSpace(string(raw)) != c {
+					res += " CH=differs"
+				}
+			}
+		}
+		if p[0] == "cbor" && p[1] == "json" {
+			if h := runCLI("cbor.hex=json", []byte(hex.EncodeToString(data))); h != c {
+				res += " CH=differs"
+			}
+		}
 	}
 	return res
 }
 
+// sameValue compares two untyped values: maps unordered, numbers by mathematical value.
+func sameValue(a, b interface{}) bool {
+	switch av := a.(type) {
+	case map[string]interface{}:
+		bv, ok := b.(map[string]interface{})
+		if !ok || len(av) != len(bv) {
+			return false
+		}
+		for k, x := range av {
+			y, ok := bv[k]
+			if !ok || !sameValue(x, y) {
+				return false
+			}
+		}
+		return true
+	case []interface{}:
+		bv, ok := b.([]interface{})
+		if !ok || len(av) != len(bv) {
+			return false
+		}
+		for i := range av {
+			if !sameValue(av[i], bv[i]) {
+				return false
+			}
+		}
+		return true
+	case []byte:
+		bv, ok := b.([]byte)
+		return ok && bytes.Equal(av, bv)
+	case int, uint64, float64:
+		return sameNumber(a, b)
+	}
+	return reflect.DeepEqual(a, b)
+}
+
+func sameNumber(a, b interface{}) bool {
+	af, aIsF := a.(float64)
+	bf, bIsF := b.(float64)
+	if aIsF || bIsF {
+		toF := func(x interface{}) (float64, bool) {
+			switch v := x.(type) {
+			case int:
+				return float64(v), true
+			case uint64:
+				return float64(v), true
+			case float64:
+				return v, true
+			}
+			return 0, false
+		}
+		x, ok1 := toF(a)
+		y, ok2 := toF(b)
+		_, _ = af, bf
+		return ok1 && ok2 && (x == y || (x != x && y != y))
+	}
+	switch av := a.(type) {
+	case int:
+		switch bv := b.(type) {
+		case int:
+			return av == bv
+		case uint64:
+			return av >= 0 && uint64(av) == bv
+		}
+	case uint64:
+		switch bv := b.(type) {
+		case int:
+			return bv >= 0 && uint64(bv) == av
+		case uint64:
+			return av == bv
+		}
+	}
+	return false
+}
+
 var cliPath string
 
-func runCLI(from, to string, data []byte) string {
-	cmd := exec.Command(cliPath, from+"="+to)
+func runCLI(sub string, data []byte) string {
+	cmd := exec.Command(cliPath, sub)
 	cmd.Stdin = bytes.NewReader(data)
 	var o, e bytes.Buffer
 	cmd.Stdout, cmd.Stderr = &o, &e
@@ -329,4 +451,64 @@ func nativeOnly(v reflect.Value, isJSON bool) bool {
 		return true
 	}
 	return false
+}
+
+func tokensInCommonModel(ts []tok.Token) bool {
+	depth := 0
+	type fr struct {
+		isMap bool
+		key   bool
+		seen  map[string]bool
+	}
+	var st []fr
+	for _, t := range ts {
+		if t.Tagged {
+			return false
+		}
+		atKey := len(st) > 0 && st[len(st)-1].isMap && st[len(st)-1].key
+		switch t.Type {
+		case tok.TMapOpen:
+			if atKey {
+				return false
+			}
+			if len(st) > 0 && st[len(st)-1].isMap {
+				st[len(st)-1].key = true
+			}
+			st = append(st, fr{true, true, map[string]bool{}})
+			depth++
+			continue
+		case tok.TArrOpen:
+			if atKey {
+				return false
+			}
+			if len(st) > 0 && st[len(st)-1].isMap {
+				st[len(st)-1].key = true
+			}
+			st = append(st, fr{false, false, nil})
+			continue
+		case tok.TMapClose, tok.TArrClose:
+			st = st[:len(st)-1]
+			continue
+		case tok.TBytes:
+			return false
+		case tok.TString:
+			if !utf8.ValidString(t.Str) {
+				return false
+			}
+		case tok.TFloat64:
+			if math.IsNaN(t.Float64) || math.IsInf(t.Float64, 0) {
+				return false
+			}
+		}
+		if atKey {
+			if t.Type != tok.TString || st[len(st)-1].seen[t.Str] {
+				return false // non-string or duplicate key: outside the common data model
+			}
+			st[len(st)-1].seen[t.Str] = true
+			st[len(st)-1].key = false
+		} else if len(st) > 0 && st[len(st)-1].isMap {
+			st[len(st)-1].key = true
+		}
+	}
+	return true
 }
